@@ -50,7 +50,7 @@ int main(int argc, char** argv) {
     std::string lit = r.chance(1, 3) ? gen_int_literal(r, false) : gen_literal(r, r.chance(1, 5) ? 800 : 60, true);
     LitInfo li = analyse_literal(lit);
     char b[64]; snprintf(b, sizeof b, "%a", strtod(lit.c_str(), nullptr));   // (the long double kept by analyse_literal is finer than a double; compare glibc strtod, the same routine family)
-    { long double dv = li.v; double d2 = strtod(lit.c_str(), nullptr); if (!std::isinf(d2) && d2 != 0 && fabsl(dv - (long double)d2) > 1e-15L * fabsl(dv)) snprintf(b, sizeof b, "strtold-and-strtod-disagree"); }
+    { long double dv = li.v; double d2 = strtod(lit.c_str(), nullptr); if (!std::isinf(d2) && fabs(d2) >= 2.3e-308 && fabsl(dv - (long double)d2) > 1e-15L * fabsl(dv)) snprintf(b, sizeof b, "strtold-and-strtod-disagree"); }
     std::string iv = li.int_in_range ? int_to_string(li.neg, (uint64_t)li.mag) : "";
     printf("{\"k\":\"lit\",\"lit\":\"%s\",\"dbl\":\"%s\",\"is_int\":%s,\"int\":\"%s\",\"sig\":%d}\n", lit.c_str(), b, li.int_in_range ? "true" : "false", iv.c_str(), li.sig_digits);
   }
